@@ -99,7 +99,7 @@ REGISTRY.update({
                          smark_pairs=60, proof=("Props/C03.v", ["C03_parse", "pkg_eval_peval"])),
     "C07": marker_runner(pm.oracle_c07, 300, 5000, GEN_RULE, PENDING),
     "C10": marker_runner(pm.oracle_c10, 250, 4000, "random histories of parse/&/| over key-equal spelling families followed by a probe; warm result vs result after cache_clear()", PENDING),
-    "C11": marker_runner(lambda ctx, n: pm.oracle_c11(ctx), 0, 0, "every operator x operand length x variable atom, every simple specifier as from_specifier input, interpreters X.Y.Z on a grid around the operands", PENDING),
+    "C11_old": marker_runner(lambda ctx, n: pm.oracle_c11(ctx), 0, 0, "every operator x operand length x variable atom, every simple specifier as from_specifier input, interpreters X.Y.Z on a grid around the operands", PENDING),
     "C12": marker_runner(pm.oracle_c12, 250, 4000, GEN_RULE,
                          "PARTIAL proof: C12_only_implied / C12_only_identity / C12_only_wf over Model/Marker.v (only() is implied by the marker and equivalent to it when it mentions only the kept names); "
                          "variable containment of the result and the exclude()/without_extras() statements are decided by the direct oracle only",
@@ -257,3 +257,22 @@ def run_c04(ctx: Ctx):
 REGISTRY["C17"] = run_c17
 REGISTRY["C06"] = run_c06
 REGISTRY["C04"] = run_c04
+
+
+def run_c11(ctx: Ctx):
+    import sbridge
+    import sparse
+    ctx.trusted_base = PARSE_TRUST + ["Model/Bridge.v is a hand-written model of MarkerExpression._get_specifier (comparison / ~= / wildcard operators), from_specifier (incl. the python_full_version zero padding) and of the version branch of _evaluate "
+                                      "(= packaging's Specifier(op operand).contains(value) = clause_sem) over tokenised atoms; tied to the code by the S-bridge stream (specifier view compared structurally, evaluate() on an interpreter grid, from_specifier results)",
+                                      "`in` / `not in` lists are outside the model (string containment; known finding pv-in-substring): direct oracle only"]
+    props_spec.proof_step(ctx, "Props/C11.v", ["C11_view", "C11_back", "C11_padding"], extra_targets=["Model/Bridge.v", "Model/CorrParse.v", "Model/Corr.v"])
+    if not any(b["kind"] == "translation" for b in ctx.broken):
+        sbridge.stream_sbridge(ctx)
+        sparse.stream_sparse(ctx, 120 if ctx.tier == "quick" else 1500)
+    pm.oracle_c11(ctx)
+    ctx.coverage["rule"] = ("every operator x operand shape (1-3 release segments, pre/post/dev suffix, epoch, wildcards) x variable as atom; every simple specifier as from_specifier input; interpreters X.Y.Z on a grid around the operands; "
+                            "S-bridge: the same through the model")
+
+
+REGISTRY["C11"] = run_c11
+del REGISTRY["C11_old"]
